@@ -138,6 +138,26 @@ def field_mutations(cfg):
             yield ("%s.%s:unknownkey" % (t, k), mut(lambda tt: tt.__setitem__("zz_" + k, 1)))
 
 
+LIMIT_CONSTS = {"MAX_HOOK_GROUP_DEPTH": 32, "MAX_HOOK_GROUP_MEMBERS": 4096, "MAX_INCLUDE_DEPTH": 32}
+
+
+def limit_hazards(root, url, deep=True):
+    """(label, cfg, extra files) for every family of py/ext/depthlim.py; LIMIT_CONSTS is overwritten by
+    the caller with what py/gen.py read from main.rs."""
+    from ext import depthlim
+    D, M, I = depthlim.consts(LIMIT_CONSTS)
+    for fam in depthlim.hook_families(D, M, "h1", deep=deep):
+        c = base(root, url)
+        c["group"] = fam["groups"]
+        c["certificate"][0]["hooks"] = [fam["top"]]
+        yield (fam["label"], c, {})
+    for fam in depthlim.include_families(I, deep=deep):
+        c = base(root, url)
+        c["include"] = fam["files"]["main.toml"]
+        extra = {rel: "include = %s\n" % _val(incs) for rel, incs in fam["files"].items() if rel != "main.toml"}
+        yield (fam["label"], c, extra)
+
+
 PERIOD_HAZARDS = ["0s", "1s", "5s", "5000w", "100000000000000000s", "92233720368547759s",
                   "30500568904944w", "18446744073709551615s18446744073709551615s",
                   "18446744073709551615s", "18446744073709551616s", "1d1d1d", "1x", "", " 1s", "1s ",
@@ -194,6 +214,11 @@ def hazards(root, url):
     c["group"] = [{"name": "d%d" % j, "hooks": ["d%d" % (j + 1)] if j + 1 < depth else ["h1"]} for j in range(depth)]
     c["certificate"][0]["hooks"] = ["d0"]
     yield ("group-deep-acyclic", c, {})
+    # the limits of get_hook_rec / read_cnf (nesting depth, budget of visited members) met exactly,
+    # exceeded by far (the sizes that overflowed the stack / exhausted the memory before 537f12e), and
+    # groups of empty groups (exponential work without a single hook, before a9033b3)
+    for label, c, extra in limit_hazards(root, url):
+        yield (label, c, extra)
     # include cycles
     c = base(root, url)
     c["include"] = ["inc_a.toml"]
